@@ -8,6 +8,7 @@ from .. import spec
 from .common import gt
 
 PROP = "C03"
+EXTRA_DRAWS = 0      # the thorough tier of this property is long already: no additional draws of the generic rationals
 
 BOUNDS = {
     "quick": "all 12 keys; D=2 fully symbolic with (K,L,M) permutations of (1,2,3), R in {1,2}, coefficients shared / per component / mixed / defaulted, densities and un-normalised measures; larger dimensions with the covariance bound to generic rationals and the mean and all coefficient vectors symbolic: D=4 (all coefficient matrices symbolic), D=5 and D=6 (one coefficient matrix symbolic, the others generic rationals; D=6 up to third order)",
